@@ -85,6 +85,7 @@ type DialRecord struct {
 	Outcome string // "pending","accepted","refused","blackholed","nxdomain","canceled"
 	At      time.Duration
 	ConnID  string
+	Tag     string
 }
 
 type Net struct {
@@ -322,8 +323,16 @@ func (l *Listener) InjectTempErrors(k int) {
 // Dial starts a connection attempt from node `from` to host:port and blocks
 // (durably) until the scheduler resolves it or ctx ends.
 func (n *Net) Dial(ctx context.Context, from, hostport string) (net.Conn, error) {
+	return n.DialTagged(ctx, from, hostport, "")
+}
+
+// DialTagged is Dial with a tag on the ledger record (harness-made connections that bypass the system's dialer).
+func (n *Net) DialTagged(ctx context.Context, from, hostport, tag string) (net.Conn, error) {
 	h, p, err := net.SplitHostPort(hostport)
 	if err != nil {
+		n.mu.Lock()
+		n.Dials = append(n.Dials, &DialRecord{From: from, Host: hostport, Outcome: "bad-address", At: n.Now(), Tag: tag})
+		n.mu.Unlock()
 		return nil, opErr("dial", nil, nil, &net.AddrError{Err: err.Error(), Addr: hostport})
 	}
 	n.mu.Lock()
@@ -331,7 +340,7 @@ func (n *Net) Dial(ctx context.Context, from, hostport string) (net.Conn, error)
 	if net.ParseIP(h) == nil {
 		rip, ok := n.lookupLocked(h)
 		if !ok {
-			n.Dials = append(n.Dials, &DialRecord{From: from, Host: hostport, Outcome: "nxdomain", At: n.Now()})
+			n.Dials = append(n.Dials, &DialRecord{From: from, Host: hostport, Outcome: "nxdomain", At: n.Now(), Tag: tag})
 			n.mu.Unlock()
 			return nil, opErr("dial", nil, nil, &net.DNSError{Err: "no such host", Name: h, IsNotFound: true})
 		}
@@ -354,7 +363,7 @@ func (n *Net) Dial(ctx context.Context, from, hostport string) (net.Conn, error)
 		from: from, addr: addr, done: make(chan struct{}),
 		src: src, dst: parseTCPAddr(addr),
 	}
-	rec := &DialRecord{From: from, Addr: addr, Host: hostport, Outcome: "pending", At: n.Now(), ConnID: req.key}
+	rec := &DialRecord{From: from, Addr: addr, Host: hostport, Outcome: "pending", At: n.Now(), ConnID: req.key, Tag: tag}
 	n.Dials = append(n.Dials, rec)
 	n.dials = append(n.dials, req)
 	n.poke()
@@ -1017,4 +1026,14 @@ func (n *Net) CloseAllListeners() {
 			l.cond.Broadcast()
 		}
 	}
+}
+
+// ListenerAccepts returns how many connections the listener at addr handed to Accept callers.
+func (n *Net) ListenerAccepts(addr string) int {
+	n.mu.Lock()
+	defer n.mu.Unlock()
+	if l := n.listeners[addr]; l != nil {
+		return l.Accepts
+	}
+	return -1
 }
